@@ -34,14 +34,14 @@ EXTENDS Naturals, Sequences, FiniteSets
 
 \* ------------------------------------------------------------ image universe
 \* D: an OCI manifest whose body has no mediaType field (the registry's Content-Type says what it
-\* is).  H: an image that target side repositories hold with one layer missing ("holed": its
+\* is).  A5: an image the registries know by a sha512 digest.  H: an image that target side repositories hold with one layer missing ("holed": its
 \* tuples there have complete = 0) until a copy from the source brings the layer along.
-MT == [A |-> "ociman", B |-> "dockerman", C |-> "ociman", D |-> "ociman", H |-> "ociman", X |-> "ociindex", Xa |-> "ociman",
+MT == [A |-> "ociman", A5 |-> "ociman", B |-> "dockerman", C |-> "ociman", D |-> "ociman", H |-> "ociman", X |-> "ociindex", Xa |-> "ociman",
        Xb |-> "ociman", Y |-> "dockerlist", Ya |-> "dockerman", Yb |-> "dockerman",
        S |-> "ociman", R |-> "ociman"]
 Kids == [X |-> [amd64 |-> "Xa", arm64 |-> "Xb"], Y |-> [amd64 |-> "Ya", arm64 |-> "Yb"]]
 \* the same table in the shape the driver derives it from the concrete bytes (trace header)
-ImgTable == << <<"A", "ociman", "", "">>, <<"B", "dockerman", "", "">>, <<"C", "ociman", "", "">>,
+ImgTable == << <<"A", "ociman", "", "">>, <<"A5", "ociman", "", "">>, <<"B", "dockerman", "", "">>, <<"C", "ociman", "", "">>,
                <<"D", "ociman", "", "">>, <<"H", "ociman", "", "">>,
                <<"R", "ociman", "", "">>, <<"S", "ociman", "", "">>, <<"X", "ociindex", "Xa", "Xb">>,
                <<"Xa", "ociman", "", "">>, <<"Xb", "ociman", "", "">>, <<"Y", "dockerlist", "Ya", "Yb">>,
